@@ -447,3 +447,7 @@ mod tests {
         Ok(())
     }
 }
+
+#[cfg(kani)]
+#[path = "/verif/kani/queryable.rs"]
+mod verif_kani;
